@@ -18,6 +18,21 @@ func init() {
 
 func genC16(r *simrt.RNG, tier string, variant int) Plan {
 	p := Plan{Family: "healthy", Params: map[string]int64{}}
+	if r.Bool(0.015) {
+		// many forward calls of one connection pending on their reverse calls at the
+		// same time: the client-side handlers answer only when all of them have arrived
+		p.Family = "many-pending"
+		nb := Pick(r, []int{40, 70, 100, 130})
+		p.Servers = []ServerPlan{{Addr: "srv0:1", PingNs: -1, Reverse: true}}
+		p.Clients = []ClientPlan{{Name: "A", Kind: "ws", Server: 0, Reverse: true}}
+		for i := 0; i < nb; i++ {
+			p.Ops = append(p.Ops, Op{Kind: "rev", Client: 0, Tok: i + 1})
+		}
+		p.Params["rev_barrier"] = int64(nb)
+		p.Params["coarse"] = 1
+		p.Params["max_steps"] = int64(nb)*1500 + 100000
+		return p
+	}
 	withOpt := !r.Bool(0.12)
 	p.Servers = []ServerPlan{{Addr: "srv0:1", PingNs: Pick(r, []int64{0, -1}), Reverse: withOpt}}
 	nc := 2 + r.Intn(3)
@@ -82,6 +97,10 @@ func runC16(e *Env, p *Plan) {
 	if err != nil {
 		e.Violate("setup", "building the world failed on a healthy network: %v", err)
 		return
+	}
+	if nb := int(p.Param("rev_barrier", 0)); nb > 0 {
+		e.BarrierN = nb
+		e.Probe("many-reverse-calls-pending-at-once")
 	}
 	faultC := make(chan struct{})
 	var once sync.Once
